@@ -189,18 +189,10 @@ Definition par_lsf (addl : dict) (procs nodes : val) : res str :=
         else Ok tt) ;;
   _ <- (if truthy nodes then
           r <- int_of rs_per_node ;; n <- int_of nodes ;; t <- int_of tasks_per_rs ;;
-          p <- int_of procs ;;
-          let rs_tasks := (r * n * t)%Z in
-          if (rs_tasks <? p)%Z then Ok tt
-          else if (rs_tasks =? 0)%Z then Err Internal     (* ZeroDivisionError *)
-          else Ok tt
+          p <- int_of procs ;; Ok tt
         else
           r <- int_of rs_per_node ;; t <- int_of tasks_per_rs ;;
-          p <- int_of procs ;;
-          let rs_tasks := (r * t)%Z in
-          if (rs_tasks <? p)%Z then Ok tt
-          else if (rs_tasks =? 0)%Z then Err Internal
-          else Ok tt) ;;
+          p <- int_of procs ;; Ok tt) ;;
   f_nt <- flag lsf_cmd_flags (s "ntasks") ;;
   f_b <- flag lsf_cmd_flags (s "bind") ;;
   let bind := get_default addl (s "bind") (VStr (s "rs")) in
